@@ -1,6 +1,7 @@
 """Harness over the real implementation: construction, operations as data, sandboxed calls,
 replay-based states, generic canonical form G, observational fingerprint Phi_k."""
 import io
+import os
 import sys
 import copy
 import types
@@ -271,6 +272,15 @@ class State:
     def names(self):
         return [self.made[i].name for i in self.model]
 
+    def knames(self):
+        """names for violation keys: children placed with add_child(forward=k) carry the placement ('link@1'), because
+        two elements holding the same names in the same insertion order are different documents when placements differ"""
+        out = []
+        for i in self.model:
+            h = self.how.get(i)
+            out.append('%s@%d' % (self.made[i].name, h[2]) if h and h[0] in ('F', 'Fx') else self.made[i].name)
+        return out
+
 
 def _attr_name(name):
     return 'xml_' + name.replace('-', '_')
@@ -363,6 +373,9 @@ def apply(st, op, child_mode='opaque'):
     elif k == 'D':
         st.made.append(None)
         o = call(copy.deepcopy, el)
+    elif k == 'T':  # switch schema checking through the public setter
+        st.made.append(None)
+        o = call(setattr, el, 'xsd_check', op[1])
     elif k == 'Ax':  # out-of-alphabet additions
         what = op[1]
         if what == 'others':
@@ -487,6 +500,9 @@ def phi0(st):
             tuple(par.value) if par.ok else 'exc:' + par.exc, tuple(at.value) if at.ok else 'exc', va.value, s)
 
 
+REMOVAL_PROBES = os.environ.get('VERIF_PHI_REMOVALS', '1') == '1'
+
+
 def phi(T, hist, k, sigma, check=True, child_mode='opaque', el_name=None):
     try:
         st = build(T, hist, check, child_mode, el_name)
@@ -508,7 +524,19 @@ def phi(T, hist, k, sigma, check=True, child_mode='opaque', el_name=None):
             nxt.append((a, o.brief(), phi0(st2)))
         else:
             nxt.append((a, o.brief(), phi(T, h2, k - 1, sigma, check, child_mode, el_name)))
-    return (base, tuple(nxt))
+    # removal probes: what a later remove() of each held child (by position) does - a state whose children point into a
+    # discarded container copy looks the same under additions but not under removal
+    rem = []
+    if REMOVAL_PROBES:
+        for pos, i in enumerate(st.model):
+            h2 = list(hist) + [('R', i)]
+            try:
+                st2 = build(T, h2, check, child_mode, el_name)
+            except Exception as e:
+                rem.append((pos, 'construction-raises', type(e).__name__))
+                continue
+            rem.append((pos, st2.outcomes[-1].brief(), phi0(st2)))
+    return (base, tuple(nxt), tuple(rem))
 
 
 # ---------------------------------------------------------------- canonical form
